@@ -15,6 +15,8 @@ PROGRAMS = {
     "file-kw": {"root": "fmain_kw", "edit": ["fmain_kw", "summ"], "file": True},
     "versioned": {"root": "vtop", "edit": ["vtop"], "bump": ["vleaf"], "arg": True},
     "script": {"root": "stop", "edit": ["stop", "sh", "leaf"], "arg": True, "opts": {"sh": {"script": True}}},
+    # a job pinned to a second executor; C28 also compares dry and real runs on a scheduler that LACKS that executor
+    "badexec": {"root": "xtop", "edit": ["xtop", "xleaf", "leaf"], "arg": True, "opts": {"xleaf": {"executor": "alt"}}, "drop_executor": "alt"},
     "shallow": {"root": "top", "edit": ["top", "mid", "leaf"], "arg": True, "opts": {"top": {"check_valid": "shallow"}}},
 }
 
